@@ -19,7 +19,7 @@
 (***************************************************************************)
 EXTENDS Integers, Sequences, FiniteSets, TLC, Json, SequencesExt
 
-CONSTANTS OutFile, MaxActs, MaxProcs, Configs,   \* Configs: set of [sx, sy, cg, rg, pg]
+CONSTANTS OutFile, MaxActs, MaxProcs, MaxEarly, Configs,   \* Configs: set of [sx, sy, cg, rg, pg]
           TypeSet, PresetSet                       \* activity types / preset-id choices of this configuration
 
 Types == {"task", "serviceTask", "userTask", "scriptTask", "manualTask", "sendTask", "receiveTask",
@@ -29,18 +29,25 @@ H(t) == IF t \in {"start", "end"} THEN 36 ELSE IF t = "subProcess" THEN 100 ELSE
 
 VARIABLES procs,    \* sequence of finished processes, each a sequence of [type, preset]
           cur,      \* activities added to the process under construction
-          cfg       \* layout configuration
-vars == <<procs, cur, cfg>>
+          cfg,      \* layout configuration (of the LAST AutoLayout call, made before Out)
+          early     \* AutoLayout calls made earlier on the same definitions builder:
+                    \* sequence of [n |-> processes added so far, c |-> configuration]
+vars == <<procs, cur, cfg, early>>
 
 ASSUME TypeSet \subseteq Types
-Init == procs = <<>> /\ cur = <<>> /\ cfg \in Configs
+Init == procs = <<>> /\ cur = <<>> /\ cfg \in Configs /\ early = <<>>
 
 AddActivity == /\ Len(cur) < MaxActs /\ Len(procs) < MaxProcs
                /\ \E t \in TypeSet, pre \in PresetSet : cur' = Append(cur, [type |-> t, preset |-> pre])
-               /\ UNCHANGED <<procs, cfg>>
+               /\ UNCHANGED <<procs, cfg, early>>
 OutProcess == /\ Len(procs) < MaxProcs
-              /\ procs' = Append(procs, cur) /\ cur' = <<>> /\ UNCHANGED cfg
-Next == AddActivity \/ OutProcess
+              /\ procs' = Append(procs, cur) /\ cur' = <<>> /\ UNCHANGED <<cfg, early>>
+\* the definitions builder is laid out now and (with whatever is added meanwhile) again later:
+\* a layout REPLACES the diagram, so only the last call shows in the result
+EarlyLayout == /\ cur = <<>> /\ Len(procs) >= 1 /\ Len(early) < MaxEarly
+               /\ \E c \in Configs : early' = Append(early, [n |-> Len(procs), c |-> c])
+               /\ UNCHANGED <<procs, cur, cfg>>
+Next == AddActivity \/ OutProcess \/ EarlyLayout
 Spec == Init /\ [][Next]_vars
 
 (* ------------------------- the model of a build ------------------------- *)
@@ -76,6 +83,7 @@ EdgesAttach ==
 ASSUME TLCSet(1, <<>>)
 Build(ps) ==
   [cfg |-> cfg,
+   early |-> early,
    procs |-> [i \in DOMAIN ps |->
       [acts |-> ps[i],
        shapes |-> [k \in DOMAIN NodeTypes(ps[i]) |-> Shape(ps, i, k)]]]]
